@@ -185,8 +185,36 @@ def evaluate_pcf(run, tier, seed):
         j2 = irrelevant_edit(r, js)
         texts['p%d_1' % i] = schematext.dumps(j2, r)
         meta['p%d_1' % i] = j2
+    # null-namespace records nested in namespaced ones, with named types and references inside them (three levels)
+    for q, inner in enumerate([{'type': 'enum', 'name': 'Leaf', 'symbols': ['A']}, {'type': 'fixed', 'name': 'Leaf', 'size': 2},
+                               {'type': 'record', 'name': 'Leaf', 'fields': [{'name': 'x', 'type': 'int'}]}]):
+        for mid_ns in ('', None, 'other'):
+            mid = {'type': 'record', 'name': 'Mid', 'fields': [{'name': 'leaf', 'type': inner}, {'name': 'again', 'type': 'Leaf'}]}
+            if mid_ns is not None:
+                mid['namespace'] = mid_ns
+            top = {'type': 'record', 'name': 'Top', 'namespace': 'ns', 'fields': [{'name': 'mid', 'type': mid}]}
+            texts['n%d%s_0' % (q, mid_ns or 'x')] = json.dumps(top)
+            meta['n%d%s_0' % (q, mid_ns or 'x')] = top
     obs = sj.run_impl('schema-rt', texts)
     acc = {cid: o for cid, o in obs.items() if tag(o) == 'obs' and len(o) >= 7}
+    # the schema the canonical form is computed from is the implementation's own parse of the text: the model parser
+    # reads the same text, and must arrive at the same schema
+    ptxt = sj.run_impl('parse-text', {cid: texts[cid] for cid in acc})
+    mparse = sj.run_model(['%s (parse %s)' % (cid, show(o[1])) for cid, o in ptxt.items() if tag(o) == 'obs'])
+    differ = {}
+    for cid, o in acc.items():
+        mpz = mparse.get(cid)
+        if mpz is not None and tag(mpz) == 'ok' and show(mpz[1]) != show(o[1]):
+            run.disagree('parse', {'kind': 'canonical-form', 'text': texts[cid]}, show(o[1])[:300], show(mpz[1])[:300])
+            differ[cid] = show(mpz[1])
+    if differ:
+        # what the rules give for the schema the TEXT denotes (model parser + specification normalisation)
+        tm = sj.run_model(['%s (schema-json %s)' % (cid, sx_) for cid, sx_ in differ.items()])
+        for cid in differ:
+            m2 = tm.get(cid)
+            if m2 is not None and tag(m2) == 'ok' and isinstance(acc[cid][4], str) and m2[4] != acc[cid][4]:
+                run.fail('pcf-differs-from-specification', 'canonical form %s, the rules give %s for this text' % (
+                    unhx(acc[cid][4]).decode('utf-8', 'replace')[:140], unhx(m2[4]).decode('utf-8', 'replace')[:140]), {'kind': 'canonical-form', 'text': texts[cid]})
     model = sj.run_model(['%s (schema-json %s)' % (cid, show(o[1])) for cid, o in acc.items()])
     # the canonical forms themselves, parsed and canonicalised again
     again_texts = {cid: unhx(o[4]).decode('utf-8', 'replace') for cid, o in acc.items() if isinstance(o[4], str)}
